@@ -24,15 +24,29 @@ COMPONENTS = {
              'secrets (seeded)']}
 ASSUMPTIONS = [
     'sim primitives copy queue.Queue / threading.Event semantics',
-    'pre-emption only at yield points (coop granularity)',
+    'pre-emption at yield points in every run; 30% of the runs are threaded '
+    'runs with coinciding end causes that are also pre-empted between source '
+    'lines of engineio functions (sys.settrace)',
     'ASGI server drops sends after the peer went away (uvicorn behaviour)']
 REQUIRED_PROBES = {'quick': [], 'thorough': []}
 
 PROFILE = _gen.profile()
+# line-granularity runs (threaded server): end causes made to coincide
+LINE_PROFILE = _gen.profile(servers=['threaded'], p_ties=0.9, p_end=0.9,
+                            p_app_disconnect=0.6, max_sessions=2)
+LINE_HOT = ['close', 'close', 'disconnect', 'check_ping_timeout', '_websocket_handler',
+            'receive', 'handle_get_request', '_service_task']
+P_LINE = 0.3
 
 
 def gen(rng, tier, i):
+    if rng.random() < P_LINE:
+        return _gen.line_decorate(
+            rng, _gen.gen_server_plan(rng, LINE_PROFILE), LINE_HOT)
     return _gen.gen_server_plan(rng, PROFILE)
+
+
+gen.lines = True
 
 
 def run(plan, sched_values=None, sched_seed=0):
@@ -70,7 +84,7 @@ LEVEL_TEXT = ('Seeded search over schedules, timings, peer behaviours and '
               'proof: a clean batch is evidence.')
 LEVEL_NOTE = ('Trusted: sim primitives (queue/event/thread/asyncio clock), '
               'fake simple_websocket and gateways, scripted client, cause '
-              'model of the oracle. Pre-emption at yield points only. '
+              'model of the oracle. Pre-emption at yield points, plus between source lines in 30% of the runs (threaded). '
               'async_mode threading and asgi only.')
 TECHNIQUE = ('deterministic simulation with fault injection: seeded '
              'schedule/fault search + history oracle')
